@@ -17,6 +17,13 @@
                wrapper kind ("#S" for statement-sorted kinds, "#E" otherwise);
                every kind the method may introduce is attached as a leaf child
                under the pseudo-field "#intro".
+   opaque    : a pass may build a node whose list field holds a sequence that is
+               not a list (a tuple): ast.NodeTransformer.generic_visit and
+               ast.iter_child_nodes enter only lists and nodes, so what such a
+               field holds is executed but is reached by no later traversal.
+               a_hide lists the fields of the visited node whose content the
+               method may place there; xform moves them (after the pass's own
+               traversal) under the pseudo-field "#opaque", which no pass visits.
    No proofs in this file. *)
 From Coq Require Import List String Bool.
 Import ListNotations.
@@ -33,7 +40,8 @@ Record action : Set := mkAction {
   a_all : bool;            (* generic_visit(node): every field is traversed *)
   a_visit : list fname;    (* otherwise: exactly these fields are traversed *)
   a_rw : rw;               (* is the node itself replaced *)
-  a_intro : list kind      (* kinds that templates of this method may introduce *)
+  a_intro : list kind;     (* kinds that templates of this method may introduce *)
+  a_hide : list fname      (* fields whose content the method may move into a non-list sequence field *)
 }.
 
 Definition pass := list (kind * action).
@@ -55,6 +63,7 @@ Definition mem2 (x y : string) (l : list (string * string)) : bool :=
   existsb (fun p => String.eqb x (fst p) && String.eqb y (snd p)) l.
 
 Definition intro_field : fname := "#intro".
+Definition opaque_field : fname := "#opaque".
 Definition is_wrapper (k : kind) : bool := String.eqb k "#S" || String.eqb k "#E".
 
 Definition isS (G : grammar) (k : kind) : bool := (negb (is_wrapper k) && mem k (g_S G)) || String.eqb k "#S".
@@ -71,10 +80,11 @@ Fixpoint fields_of (l : list (kind * list fname)) (k : kind) : option (list fnam
   | (k', fs) :: r => if String.eqb k k' then Some fs else fields_of r k
   end.
 Definition known_field (G : grammar) (k : kind) (f : fname) : bool :=
-  is_wrapper k || String.eqb f intro_field ||
-  match fields_of (g_fields G) k with Some fs => mem f fs | None => true end.
+  negb (String.eqb f opaque_field) &&
+  (is_wrapper k || String.eqb f intro_field ||
+   match fields_of (g_fields G) k with Some fs => mem f fs | None => true end).
 
-Definition default_action : action := mkAction true [] Never [].
+Definition default_action : action := mkAction true [] Never [] [].
 Fixpoint lookup (P : pass) (k : kind) : action :=
   match P with
   | [] => default_action
@@ -83,7 +93,10 @@ Fixpoint lookup (P : pass) (k : kind) : action :=
 
 (* children under "#intro" stand for template material placed around the node;
    they are traversed with the node *)
-Definition visits (a : action) (f : fname) : bool := a_all a || String.eqb f intro_field || mem f (a_visit a).
+Definition visits (a : action) (f : fname) : bool :=
+  negb (String.eqb f opaque_field) && (a_all a || String.eqb f intro_field || mem f (a_visit a)).
+(* where a child held in field f is found after the method has run *)
+Definition relabel (a : action) (f : fname) : fname := if mem f (a_hide a) then opaque_field else f.
 Definition is_always (a : action) : bool := match a_rw a with Always => true | _ => false end.
 Definition leaf (k : kind) : fname * tree := (intro_field, Node k []).
 
@@ -91,7 +104,8 @@ Fixpoint xform (G : grammar) (P : pass) (t : tree) : tree :=
   match t with
   | Node k cs =>
     let a := lookup P k in
-    let cs' := map (fun fc => match fc with (f, c) => if visits a f then (f, xform G P c) else (f, c) end) cs in
+    let cs' := map (fun fc => match fc with (f, c) =>
+                      if visits a f then (relabel a f, xform G P c) else (relabel a f, c) end) cs in
     Node (if is_always a then wrapper G k else k) (cs' ++ map leaf (a_intro a))
   end.
 
@@ -174,6 +188,8 @@ Definition skip_ok (G : grammar) (W : list (kind * fname)) (E : list kind) (wfk 
 Definition entry_ok (G : grammar) (W : list (kind * fname)) (E : list kind) (wfk : bool) (ka : kind * action) : bool :=
   let (k, a) := ka in
   negb (is_wrapper k) &&
+  (* nothing is moved out of the reach of the later passes *)
+  match a_hide a with [] => true | _ => false end &&
   (* traversal *)
   (a_all a || match E with [] => true | _ => false end ||
    match fields_of (g_fields G) k with
@@ -183,11 +199,16 @@ Definition entry_ok (G : grammar) (W : list (kind * fname)) (E : list kind) (wfk
   (* a replaced node has no exempt field (its children move to non-exempt positions) *)
   (negb (is_always a) || forallb (fun kf => negb (String.eqb k (fst kf))) (g_exempt G)).
 
+Definition hides_nothing (P : pass) : bool :=
+  forallb (fun ka => match a_hide (snd ka) with [] => true | _ => false end) P.
+
 Definition pass_ok (G : grammar) (W : list (kind * fname)) (wfk : bool) (P : pass) : bool :=
   forallb (entry_ok G W (elims G P) wfk) P.
 
-(* the pass keeps "no statement below an expression" *)
+(* the pass keeps "no statement below an expression" and "only fields the grammar knows" (the opaque
+   pseudo-field is not one) *)
 Definition preserves_sorts (G : grammar) (P : pass) : bool :=
+  hides_nothing P &&
   forallb (fun ka => isS G (fst ka) || forallb (fun i => negb (isS G i)) (a_intro (snd ka))) P.
 
 Fixpoint pipeline_ok (G : grammar) (Ps : list wpass) (A : list kind) (wfk : bool) : bool :=
